@@ -14,14 +14,21 @@ def run(d):
         if r.returncode != 0:
             return d, {'_error': 'patch'}
         env = dict(os.environ, COCLS_REPO=w, COCLS_NO_EVIDENCE='1')
+        r = subprocess.run(['python3', os.path.join(HERE, 'engine', 'check.py'), '--all', '--tier', 'quick'], capture_output=True, text=True, env=env, cwd=HERE)
+        cur = None; viol = {}
+        for l in r.stdout.splitlines():
+            if l.startswith('=== ') and l.endswith(' begin'):
+                cur = l.split()[1]; viol[cur] = set()
+            elif l.startswith('=== ') and ' rc=' in l:
+                c = l.split()[1]; res[c] = (int(l.rsplit('rc=', 1)[1]), sorted(viol.get(c, set()))); cur = None
+            elif l.startswith('  violation') and cur:
+                viol[cur].add(l.split(':')[1].split(' in ')[0].strip())
         for c in checks:
-            r = subprocess.run(['python3', os.path.join(HERE, 'engine', 'check.py'), c, '--tier', 'quick'], capture_output=True, text=True, env=env, cwd=HERE)
-            rules = sorted({l.split(':')[1].split(' in ')[0].strip() for l in r.stdout.splitlines() if l.startswith('  violation')})
-            res[c] = (r.returncode, rules)
+            res.setdefault(c, (2, ['(no result)']))
     finally:
         subprocess.run(['git', '-C', '/repo', 'worktree', 'remove', '--force', w], capture_output=True)
     return d, res
-with ThreadPoolExecutor(max_workers=5) as ex:
+with ThreadPoolExecutor(max_workers=12) as ex:
     out = list(ex.map(run, dirs))
 summary = {}
 for d, res in out:
